@@ -15,7 +15,7 @@ import os
 import numpy as np
 
 PROP = 'C05'
-TARGETS = ['T1', 'T4', 'T11', 'T11b', 'T11c', 'T12']
+TARGETS = ['T1', 'T1b', 'T4', 'T11', 'T11b', 'T11c', 'T12']
 LEAN_MODULES = ['HdVerif.Props.C05']
 MODEL_MODULES = ['HdVerif.Model.FrameAccess']
 NAMESPACE = 'HdVerif.C05'
@@ -170,6 +170,25 @@ def _check_image(ctx, d, ds, fr, reqs, pending):
         # batch == singles (oracle)
         r = ctx.rng('batch', d['idx'])
         sel = [r.randrange(n) for _ in range(r.randint(1, 5))]
+        # ---- batch requests against the model (un-cached branch; fresh object so that nothing is cached yet)
+        if native and d['bits'] == 1 and name in ('memory',):
+            st0, fresh = _fetch(paths[name])
+            if st0 == 'ok':
+                for as_index in (False, True):
+                    good = sel if as_index else [s + 1 for s in sel]
+                    bad = n if as_index else n + 1
+                    for req in (good, None, [], good[:1] + [bad] + good[1:], [-1 if as_index else 0]):
+                        st, val = _fetch(fresh.get_stored_frames, req, as_indices=as_index)
+                        ctx.case(path=name + '/batch-model', batch=('none' if req is None else ('empty' if not req else 'list')),
+                                 nontrivial_key=('batch-model', d['idx'], as_index, repr(req)) if st == 'ok' else None)
+                        impl = ('ok', [[bool(x) for x in np.asarray(f).reshape(-1)] for f in val]) if st == 'ok' else ('err', _err_kind(val))
+                        reqs.append(('batchFramesBits', {'pd': list(ds.PixelData), 'rows': d['rows'], 'cols': d['cols'], 'samples': 1,
+                                                         'n': n, 'ks': req, 'as_index': as_index}))
+                        pending.append(({'image': d, 'path': name, 'batch': req, 'as_index': as_index, 'what': 'batch vs model'}, impl))
+                        # oracle on refusal: empty and out-of-range batches must not be answered
+                        if (req == [] or (req is not None and bad in req) or req == [-1 if as_index else 0]) and st == 'ok':
+                            ctx.fail({'image': d, 'path': name, 'batch': req, 'as_index': as_index},
+                                     'batch with an empty / out-of-range request was answered', site='get_stored_frames')
         for as_index in (False, True):
             nums = sel if as_index else [s + 1 for s in sel]
             st, val = _fetch(im.get_stored_frames, nums, as_indices=as_index)
@@ -201,6 +220,28 @@ def _check_image(ctx, d, ds, fr, reqs, pending):
                     reqs.append(('memFrameBits', {'pd': list(ds.PixelData), 'rows': d['rows'], 'cols': d['cols'], 'samples': 1,
                                                   'n': n, 'k': k, 'as_index': as_index}))
                     pending.append((case, ('ok', [bool(x) for x in np.asarray(val).reshape(-1)])))
+            # which stored frame does the cached branch hand out?  (identified by content when frames are pairwise distinct)
+            distinct = all(not np.array_equal(ref[a], ref[b]) for a in range(n) for b in range(a + 1, n))
+            if distinct:
+                def _fid(v):
+                    ids = [q for q in range(n) if np.array_equal(np.asarray(v).astype(np.int64).reshape(ref[q].shape), ref[q].astype(np.int64))] \
+                        if np.asarray(v).size == ref[0].size else []
+                    return ids[0] if len(ids) == 1 else -1
+                for k in range(-n - 1, n + 2):
+                    for batch in (False, True):
+                        st, val = _fetch((lambda: im.get_stored_frames([k], as_indices=as_index)[0]) if batch
+                                         else (lambda: im.get_stored_frame(k, as_index=as_index)))
+                        impl = ('ok', _fid(val)) if st == 'ok' else ('err', _err_kind(val))
+                        reqs.append(('cached', {'n': n, 'k': k, 'as_index': as_index, 'batch': batch}))
+                        pending.append(({'image': d, 'path': name + '/cached', 'k': k, 'as_index': as_index, 'batch': batch,
+                                         'what': 'cached frame id vs model'}, impl))
+                        ctx.case(path=name + '/cached-model')
+                for req in (None, [], [n if as_index else n + 1]):
+                    st, val = _fetch(im.get_stored_frames, req, as_indices=as_index)
+                    impl = ('ok', [_fid(v) for v in val]) if st == 'ok' else ('err', _err_kind(val))
+                    reqs.append(('cachedBatch', {'n': n, 'ks': req, 'as_index': as_index}))
+                    pending.append(({'image': d, 'path': name + '/cached', 'batch': req, 'as_index': as_index,
+                                     'what': 'cached batch vs model'}, impl))
             nums = sel if as_index else [s + 1 for s in sel]
             for req in (nums, list(reversed(range(n))) if as_index else list(reversed(range(1, n + 1))), None):
                 st, val = _fetch(im.get_stored_frames, req, as_indices=as_index)
@@ -241,6 +282,12 @@ def _fixtures(ctx):
     import hd_env
     import pydicom
     files = sorted(glob.glob(os.path.join(hd_env.HD_REPO, 'data/test_files/*.dcm')))
+    # pydicom's installed test data: JPEG baseline / JPEG 2000 / RLE fixtures named in the property's quantifier
+    pyd = os.path.join(os.path.dirname(pydicom.__file__), 'data', 'test_files')
+    extra = sorted(glob.glob(os.path.join(pyd, '*.dcm')))
+    if ctx.tier == 'quick':
+        extra = [f for i, f in enumerate(extra) if i % 3 == ctx.seed % 3]
+    files += extra
     for f in files:
         try:
             ds0 = pydicom.dcmread(f)
